@@ -15,6 +15,7 @@
 package blockfetch
 
 import (
+	"bytes"
 	"context"
 	"errors"
 	"fmt"
@@ -446,6 +447,15 @@ func (c *Client) GetBlock(point pcommon.Point) (ledger.Block, error) {
 	case <-c.batchDoneChan:
 		// BatchDone was processed successfully
 		c.releaseBusy(token)
+		// The server chooses what it sends: only hand back the block that was
+		// asked for
+		if block == nil || !bytes.Equal(block.Hash().Bytes(), point.Hash) {
+			return nil, fmt.Errorf(
+				"%s: received block does not match requested point %x",
+				ProtocolName,
+				point.Hash,
+			)
+		}
 		return block, nil
 	case <-protocolDone:
 		// Shutdown while waiting for BatchDone
